@@ -2,6 +2,8 @@
    with two arithmetic instances: native binary64 with [rnd] = round-to-binary32 (the C++ computes everything in
    double and stores the accumulated coefficients into float), and exact rationals (Qc, extracted) for the
    transfer matrix that the exact convolution oracle is compared with. One output line per V/U line.
+   The coefficient update is executed in its loop-nest form (ConvModel.apply_trafo_rows, proved equal to the positional
+   form in C14_Rows.v).
    argv: cases [shipped|signflip|fixed] — which historical variant of the code the model follows: as shipped
    (factorial(0) = 0 and the (-1)^k factor), after the factorial fix only, or the current tree (default). *)
 open Convmodel
@@ -97,8 +99,17 @@ let () =
         let ds = Array.of_list (List.rev !pend_dims) in
         let rt = { orders = Array.map fst ds; knots = Array.map snd ds; coefs = !coefs; ext = !ext } in
         let t = mk_ctable Obj.repr rt in
-        let conv = if shipped then convolve_shipped else if flip then convolve_signflip else convolve in
+        (* the loop-nest form (= the positional form on well-formed tables: C14_loop_nest_is_cellwise) is the one executed;
+           on tables of at most 2000 coefficients the positional form is executed as well and must give the identical table *)
+        let conv = if shipped then convolve_rows_shipped else if flip then convolve_rows_signflip else convolve_rows in
         let t' = conv f32 (isort f32) t (nat_of_int dim) (List.map Obj.repr kk) in
+        if Array.length !coefs <= 2000 then begin
+          let conv_pos = if shipped then convolve_shipped else if flip then convolve_signflip else convolve in
+          let tp = conv_pos f32 (isort f32) t (nat_of_int dim) (List.map Obj.repr kk) in
+          let bits l = List.map (fun (v : Obj.t) -> Int64.bits_of_float (Obj.obj v : float)) l in
+          if bits tp.c_coef <> bits t'.c_coef then begin
+            prerr_endline ("conv_driver: loop-nest form and positional form of the model differ on case " ^ id); exit 3 end
+        end;
         let b = Buffer.create 4096 in
         let asd (v : Obj.t) = hex_of_dbl (Obj.obj v : float) and asf (v : Obj.t) = hex_of_flt (Obj.obj v : float) in
         let nat s = string_of_int (int_of_nat s) in
